@@ -57,6 +57,11 @@ func SerialEncode(seq byte, subject string, points data.Points) ([]byte, error) 
 
 	ret.Write(pbSerialBytes)
 
+	if subject == "log" {
+		// log packets do not carry a CRC (and SerialDecode does not expect one)
+		return ret.Bytes(), nil
+	}
+
 	crc := crc16.ChecksumCCITT(ret.Bytes())
 
 	err = binary.Write(&ret, binary.LittleEndian, crc)
